@@ -281,6 +281,26 @@ func init() {
 			c03stats.Outcome("two-evidences-ok")
 		}, nil
 	}
+	// long component lists through sign -> decode -> verify (what the encoder emits the decoder must take back)
+	Scenarios["c03.many-components"] = func() (choice.Scenario, func() any) {
+		return func(c *choice.Ctx) {
+			kind := c.Choose("profile", 2)
+			n := []int{33, 65, 129, 257, 1025, 4097}[c.Choose("ncomps", 6)]
+			algName := []string{"ES256", "EdDSA"}[c.Choose("alg", 2)]
+			a := genValidOpt(&choice.Ctx{}, kind, false, true)
+			a.CompsNil, a.NoMeas, a.Comps = false, nil, nil
+			for i := 0; i < n; i++ {
+				a.Comps = append(a.Comps, okComp(byte(i), []int{32, 48, 64}[i%3]))
+			}
+			x, err := buildBySetters(a)
+			if err != nil {
+				c.Failf("C03:build:many-components", "%v", err)
+				return
+			}
+			c03stats.StateStr(fmt.Sprint("many", kind, n, algName))
+			c03Eval(c, c03stats, a, x, kind, algName, fixtures.Get(algName, 1), true, 0)
+		}, nil
+	}
 	Checks["C03"] = func(r *evid.Run) {
 		registerStandardExt()
 		c03stats = NewStats()
@@ -290,6 +310,7 @@ func init() {
 			b = 4
 		}
 		exploreChoiceOpts(r, "c03.two-evidences", 2, dl, 1)
+		exploreChoice(r, "c03.many-components", -1, dl)
 		for kind := 0; kind < 3; kind++ {
 			exploreChoice(r, "c03."+kindNames[kind], b, dl)
 		}
